@@ -40,12 +40,9 @@ func valToken(v system.Any) string {
 	case system.Quantity:
 		d, u := quantityParts(x)
 		return "Q:" + rawDec(d) + ":" + hexs(u)
-	case system.Date:
-		return "O:date"
-	case system.DateTime:
-		return "O:datetime"
-	case system.Time:
-		return "O:time"
+	case system.Date, system.DateTime, system.Time:
+		t, _ := temporalToken(v)
+		return t
 	}
 	return "O:unknown"
 }
